@@ -120,6 +120,14 @@ RULE = (
     "place as soon as add_data has returned; every query reads the samples every dataset holds (fit[model].data[name]"
     ".x/.y, bit patterns) - they must be the valid samples handed over when it was added (model: in order; oracle: as "
     "a multiset of pairs). "
+    "The TYPE of the numbers the user types is part of the input too: per script (random: 1 in 2 as generated = floats, 1 in 4 "
+    "every whole number of the model defaults and of the set actions typed as a Python int, 1 in 4 ints throughout = explicit "
+    "int defaults for every model argument, values rounded, bounds rounded outwards, so that the WHOLE table holds ints until "
+    "the first fit has written its answer; small scope: rotating with layout and pattern; corpus: one dataset, a global fit "
+    "with shared slope and renamed intercepts, a fixed int next to a free int, ints set again after a fit, a one-parameter "
+    "offset started from the int 0 - all on noise-free data whose optimum is not whole). "
+    "The recovery exploration also fits the built-in offset models on their own (force_offset / distance_offset, 1-3 datasets, "
+    "offset shared or renamed, +-15% start inside the default box of +-0.1; the only built-in fits without the float kT). "
     "On every script whose models are all polynomial toys two further ops run (c14.resid, c14.fjac): every query reads the "
     "residual VECTOR and the full Jacobian of the fit (through the function / jac callable the public fit() hands to its "
     "optimiser - stand-in optimiser that leaves before the write-back - and through the private Fit._calculate_residual / "
@@ -211,7 +219,7 @@ BUILTIN = {}
 
 _CALLS = []
 COUNTS = {"datasets_checked_against_model_function_calls": 0, "optimiser_calls": 0, "fits_raised_after_write_back": 0,
-          "held_samples_read": 0}
+          "held_samples_read": 0, "fits_started_from_a_table_of_ints_only": 0, "fits_started_from_a_table_with_some_ints": 0}
 
 
 def _rec(x, params):
@@ -658,6 +666,14 @@ def run_script(case):
             except Exception as e:
                 obs.append("set:" + errname(e))
         elif a == "fit":
+            try:
+                tv = [type(p.value) for _, p in fit.params.items()]
+                if tv and all(t is int for t in tv):
+                    COUNTS["fits_started_from_a_table_of_ints_only"] += 1
+                elif any(t is int for t in tv):
+                    COUNTS["fits_started_from_a_table_with_some_ints"] += 1
+            except Exception:
+                pass
             with Recorder(resid=poly) as rec:
                 try:
                     fit.fit()
@@ -1538,6 +1554,65 @@ def assign_handover(case, h):
     return case
 
 
+NUMBER_TYPES = ["float", "whole-as-int", "all-int"]
+
+
+def _as_int(v, how=round):
+    """a number typed the way a user types a whole number: 2, not 2.0 (`how` decides where a non-whole one goes)"""
+    if v is None or isinstance(v, bool):
+        return v
+    return int(how(v))
+
+
+def _whole_as_int(v):
+    return int(v) if isinstance(v, float) and math.isfinite(v) and v == int(v) and abs(v) < 2**53 else v
+
+
+def assign_number_types(case, habit):
+    """The Python TYPE of the numbers the user types (none of this is an action on the fit; a parameter table is a
+    table of numbers whatever their type): 'float' - as generated; 'whole-as-int' - every whole number among the model
+    defaults (value, bounds) and the set actions (value, lb, ub) is typed as an int (2 instead of 2.0); 'all-int' - a
+    user who thinks in whole numbers: every model argument gets an explicit default, and every value / bound of the
+    defaults and of the set actions is a Python int (values rounded, lower bounds rounded down, upper bounds up), so
+    that until the first fit has written its answer the WHOLE parameter table holds ints."""
+    if habit == "float":
+        return case
+    case["number_types"] = habit
+    allint = habit == "all-int"
+    models = []
+    for sp in case["models"]:
+        if sp.get("kind") != "poly":
+            models.append(sp)
+            continue
+        sp = dict(sp)
+        dfl = {}
+        for a in sp["args"]:
+            d = sp.get("defaults", {}).get(a)
+            if d is None:
+                if allint:
+                    dfl[a] = [0, None, None, False]  # what Parameter() says, typed as ints
+                continue
+            v, lo, hi, fx = d
+            if allint:
+                dfl[a] = [_as_int(v), _as_int(lo, math.floor), _as_int(hi, math.ceil), fx]
+            else:
+                dfl[a] = [_whole_as_int(v), _whole_as_int(lo), _whole_as_int(hi), fx]
+        sp["defaults"] = dfl
+        models.append(sp)
+    case["models"] = models
+    acts = []
+    for a in case["actions"]:
+        if a["a"] == "set" and a["f"] in ("value", "lb", "ub") and a["v"] is not None:
+            a = dict(a)
+            if allint:
+                a["v"] = _as_int(a["v"], {"value": round, "lb": math.floor, "ub": math.ceil}[a["f"]])
+            else:
+                a["v"] = _whole_as_int(a["v"])
+        acts.append(a)
+    case["actions"] = acts
+    return case
+
+
 def corpus_files():
     """corpus/C14/*.json: the inputs of the observations/findings, kept as files and run first forever"""
     import glob
@@ -1587,6 +1662,18 @@ def corpus_cases():
     yield script("corpus", [M], [F, Q, a1, a1, add_action(0, "e", x, [1, 1], {"M/c": {"n": "z"}}), add_action(0, "f", x, [1, 1], y=[1.0]), S("nope", "value", 1.0), Q,
                                  S("M/a", "fixed", True), S("M/b", "fixed", True), Q, F, Q, S("M/b", "fixed", False), S("M/b", "value", 6.0), Q, F, Q,
                                  S("M/b", "value", 5.0), S("M/b", "lb", 5.0), Q, F, Q])
+    # the TYPE of the numbers: whole-number defaults / starting guesses / bounds typed as Python ints, so that the whole
+    # table holds ints when the fit starts (noise-free data whose optimum is NOT whole): one dataset; a global fit with
+    # a shared slope and renamed intercepts; a fixed int next to a free int; a refit; ints set again after a fit
+    Mi = poly_spec("M", ["a", "b"], {"a": [1, None, None, False], "b": [2, -5, 5, False]})
+    xi = [0.0, 0.5, 1.0, 1.5, 2.0, 2.5, 3.0, 3.5, 4.0]
+    i1 = add_action(0, "first", xi, [7.25, 2.375])
+    i2 = add_action(0, "second", xi, [-1.625, 2.375], {"M/a": {"n": "M/a_2"}})
+    yield script("corpus", [Mi], [i1, Q, F, Q, F, Q], number_types="all-int")
+    yield script("corpus", [Mi], [i1, i2, S("M/a", "value", 7), S("M/a_2", "value", -2), S("M/b", "value", 2), Q, F, Q, F, Q,
+                                  S("M/a", "value", 7), S("M/a_2", "value", -2), S("M/b", "value", 2), Q, F, Q], number_types="all-int")
+    yield script("corpus", [Mi], [add_action(0, "first", xi, [7.25, 3.0]), S("M/b", "value", 3), S("M/b", "fixed", True), S("M/a", "value", 7), Q, F, Q], number_types="all-int")
+    yield script("corpus", [poly_spec("off", ["c"], {"c": [0, -1, 1, False]})], [add_action(0, "no tether", xi, [0.0375]), Q, F, Q, S("off/c", "value", 0), Q, F, Q], number_types="all-int")
     # only NaN data: no residuals
     yield script("corpus", [M], [add_action(0, "d1", x, [1, 1], y=[float("nan")] * 4), Q, F, Q])
     yield {"stream": "corpus", "op": "unique", "names": ["a", "b", "a", "c", "b"]}
@@ -1643,7 +1730,9 @@ def small_scope(tier):
                 # between: the fit object goes from "just fitted" straight to "more data" to "fit again")
                 src = acts[ci % nds]
                 more = with_hand(add_action(0, "more", XS[3:8], [1.0 + ci % nds, 3.0], src.get("ov")), HANDS[(ci + 1) % 4], "overwrite" if ci % 2 else None)
-                yield script("small-scope", [M], acts + post + probe + [F, Q, F, Q, more, Q, F, Q])
+                # the type of the numbers rotates with layout and pattern: as written above (floats), whole numbers
+                # typed as ints (pattern 0: the whole table holds ints when the first fit starts), ints throughout
+                yield assign_number_types(script("small-scope", [M], acts + post + probe + [F, Q, F, Q, more, Q, F, Q]), NUMBER_TYPES[(ci + fixpat) % 3])
 
 
 NAME_POOL = ["x", "y", "shared", "M/a_2", "DNA/Lc_RecA", "λ/Lc", "k T", "", "a.b", "P/c0"]
@@ -1787,7 +1876,10 @@ def random_script(rng, stream="random"):
             acts.append(a)
             c = t.randint(0, 9)
             acts += [Q, F, Q] if c <= 3 else [F, Q] if c <= 6 else [Q] if c <= 8 else [F]
-    return assign_handover(script(stream, models, acts), rng.fork("handover"))
+    case = assign_handover(script(stream, models, acts), rng.fork("handover"))
+    # ... and the TYPE of the numbers the user types (drawn from a fork too): as generated (floats), whole numbers as
+    # ints, or ints throughout (the whole table holds ints until a fit has written its answer)
+    return assign_number_types(case, rng.fork("number-types").choice(["float", "float", "whole-as-int", "all-int"]))
 
 
 def random_builtin(rng):
@@ -1959,6 +2051,59 @@ def recover_case(rng, slow_ok=False):
     return assign_handover(script("recover", specs, acts, truth=truth), rng.fork("handover"))
 
 
+def recover_offset_case(rng):
+    """EXPLORATION, the offset models on their own (baseline estimation: `force_offset` / `distance_offset` are built-in
+    models too, and the only ones without the shared kT): noise-free constant data, 1-3 datasets with the offset shared
+    or renamed per dataset, start perturbed by up to +-15% inside the default box of +-0.1, optional fixing of a subset
+    at the generating value and bounds tightened around / placed at the optimum; fit, refit, further data, fit."""
+    import lumicks.pylake as lk
+
+    ctor = rng.choice(["force_offset", "distance_offset"])
+    name = "baseline"
+    m = getattr(lk, ctor)(name)
+    (pname,) = [n for n, _ in m.defaults.items()]
+    truth, free, dsets = {}, [], []
+    for k in range(rng.randint(1, 3)):
+        tgt = f"{pname}_{k}" if k > 0 and rng.chance(0.5) else pname
+        if tgt not in truth:
+            truth[tgt] = rng.choice([-1.0, 1.0]) * rng.uniform(0.005, 0.085)
+            free.append(tgt)
+        dsets.append((k, {pname: {"n": tgt}} if tgt != pname else {}, {pname: truth[tgt]}))
+
+    def make_add(ov, local, dsname):
+        x = np.linspace(rng.uniform(0.1, 0.5), rng.uniform(20.0, 40.0), rng.randint(5, 25))
+        a = {"a": "add", "mi": 0, "name": dsname, "x": [float(v) for v in x], "y": [float(v) for v in m(x, local)]}
+        if ov:
+            a["ov"] = ov
+        return a
+
+    acts = [make_add(ov, local, f"d{k}") for k, ov, local in dsets]
+    _, ov, local = dsets[rng.randint(0, len(dsets) - 1)]
+    more = make_add(ov, local, "more")
+    sets, nfixed, at_optimum = [], 0, False
+    for tgt in free:
+        tv = truth[tgt]
+        mode = rng.choice(["free", "free", "free", "fixed", "tight", "lb-at-optimum", "ub-at-optimum"])
+        if mode == "fixed" and nfixed < len(free) - 1:
+            nfixed += 1
+            sets += [S(tgt, "value", tv), S(tgt, "fixed", True)]
+            continue
+        pert = rng.uniform(-0.15, 0.15)
+        if mode == "tight":
+            w = rng.uniform(0.2, 0.5)
+            sets += [S(tgt, "lb", tv - w * abs(tv)), S(tgt, "ub", tv + w * abs(tv))]
+        elif mode in ("lb-at-optimum", "ub-at-optimum"):
+            at_optimum = True
+            up = mode == "lb-at-optimum"  # the start lies on the inner side of the bound
+            pert = abs(pert) if (tv > 0) == up else -abs(pert)
+            sets.append(S(tgt, "lb" if up else "ub", tv))
+        sets.append(S(tgt, "value", tv * (1 + pert)))
+    tol = 5e-2 if at_optimum else 1e-3
+    acts += sets + [Q, F, dict(Q, check="recovered", tol=tol), F, dict(Q, check="refit-from-optimum", tol=tol)]
+    acts += [more, Q, F, dict(Q, check="more-data", tol=tol)]
+    return assign_handover(script("recover", [{"kind": "builtin", "ctor": ctor, "name": name}], acts, truth=truth), rng.fork("handover"))
+
+
 def cases(tier, rng):
     quick = tier == "quick"
     yield from corpus_files()
@@ -1966,6 +2111,11 @@ def cases(tier, rng):
     r = rng.fork("c14-recover")
     for i in range(60 if quick else 800):
         c = recover_case(r.fork(i), slow_ok=(not quick and i % 10 == 0))
+        c["subseed"] = i
+        yield c
+    r = rng.fork("c14-recover-offset")
+    for i in range(12 if quick else 100):
+        c = recover_offset_case(r.fork(i))
         c["subseed"] = i
         yield c
     yield from small_scope(tier)
@@ -1998,6 +2148,7 @@ def extra_coverage(results):
     clause_ids = collections.Counter()
     variants_differ = 0
     handover = collections.Counter()
+    number_types = collections.Counter()
     for r in results:
         c = r["case"]
         if r["clause"]:
@@ -2007,6 +2158,7 @@ def extra_coverage(results):
         if " || " in r["model"][0]:
             variants_differ += 1
         nmodels[len(c["models"])] += 1
+        number_types[c.get("number_types", "float")] += 1
         nds[sum(1 for a in c["actions"] if a["a"] == "add")] += 1
         for a in c["actions"]:
             if a["a"] == "add":
@@ -2052,6 +2204,7 @@ def extra_coverage(results):
         "fit_outcomes": dict(outcomes),
         "refused_actions": dict(errors),
         "datasets_by_form_of_hand_over": dict(handover),
+        "scripts_by_type_of_the_numbers_typed": dict(number_types),
         "oracle_clause_ids_hit": dict(clause_ids),
         "scripts_where_the_repaired_variant_differs": variants_differ,
         "variant_the_implementation_followed": dict(VARIANT),
